@@ -1,6 +1,6 @@
 (* Judge of the L0 tie: the whole-formatter model Fmt0.format0 (extracted) against the binary, byte for byte; and the source
    text against the tree (erasure and comment census), so that the theorems about the tree speak about the text that was formatted.
-   L0 <id> <windows> <spaces> <indent width> <quote style>/<call_parentheses>/<space_after_function_names> <tree> <source hex> <status> <output hex> *)
+   L0 <id> <windows> <spaces> <indent width> <quote style>/<call_parentheses>/<space_after_function_names>/<collapse_simple_statement> <tree> <source hex> <status> <output hex> *)
 open Util
 open Fmt0
 let uop = function "-" -> Expr.Neg | "not" -> Expr.Not | "#" -> Expr.Len | "~" -> Expr.BNot | s -> failwith ("uop " ^ s)
@@ -46,11 +46,12 @@ let handle line = match words line with
     incr records;
     if status <> "ok" then report ("format-" ^ status) id
     else begin
-      let style, callp, space = match Stdlib.String.split_on_char '/' style with [a; b; c] -> a, b, c | _ -> failwith "options" in
+      let style, callp, space, coll = match Stdlib.String.split_on_char '/' style with [a; b; c; d] -> a, b, c, d | _ -> failwith "options" in
       let cfg = { windows0 = (win = "1"); spaces0 = (spaces = "1"); width0 = int_to_nat (int_of_string width);
                   style0 = (match style with "AutoPreferDouble" -> QuoteMore.AutoDouble | "AutoPreferSingle" -> QuoteMore.AutoSingle | "ForceDouble" -> QuoteMore.ForceDouble | "ForceSingle" -> QuoteMore.ForceSingle | _ -> failwith "style");
                   callp0 = (match callp with "Always" -> CallForm.Always | "NoSingleString" -> CallForm.NoSingleString | "NoSingleTable" -> CallForm.NoSingleTable | "None" -> CallForm.NoneM | "Input" -> CallForm.Input | _ -> failwith "callp");
-                  space0 = (match space with "Never" -> CallForm.SNever | "Definitions" -> CallForm.SDefinitions | "Calls" -> CallForm.SCalls | "Always" -> CallForm.SAlways | _ -> failwith "space") } in
+                  space0 = (match space with "Never" -> CallForm.SNever | "Definitions" -> CallForm.SDefinitions | "Calls" -> CallForm.SCalls | "Always" -> CallForm.SAlways | _ -> failwith "space");
+                  collapse0 = (match coll with "Never" -> CNever | "FunctionOnly" -> CFunction | "ConditionalOnly" -> CConditional | "Always" -> CAlways | _ -> failwith "collapse") } in
       match (try Some (blk (Sexp.parse tree)) with Failure _ -> None) with
       | None -> report "unreadable-tree" id
       | Some p ->
